@@ -219,6 +219,11 @@ def compare_streams(impl_path, model_path, rtol=None, atol_scale=0.0, max_report
             if li == lm:
                 continue
             ti, tm = li.split(), lm.split()
+            if len(ti) > 1 and len(tm) > 1 and ti[1] == "panic" and tm[1] == "panic":
+                # both panic: when several goroutines of one call panic for different reasons, which panic kills the
+                # process first is schedule-dependent, so the class is not compared
+                bitdiff += 1
+                continue
             ok = len(ti) == len(tm)
             if ok:
                 atol = atol_scale * max(line_scale(ti), line_scale(tm)) if rtol is not None else 0.0
@@ -566,7 +571,7 @@ class Check:
                         for line in open(opsf):
                             t = line.split(None, 2)
                             if len(t) > 1 and t[1] in ids:
-                                ops.append(line.rstrip("\n")[:20000])
+                                ops.append(line.rstrip("\n")[:400000])
                                 if len(ops) >= 10:
                                     break
             rp["ops"] = ops
